@@ -14,7 +14,7 @@ use prqlc::sql::Dialect;
 use rusqlite::Connection;
 use serde_json::json;
 
-const ALPHA: &[char] = &['a', 'A', '1', '_', ' ', '"', '\'', '.', '$', '-', 'é'];
+const ALPHA: &[char] = &['a', 'A', '1', '_', ' ', '"', '\'', '.', '$', '-', 'é', '\\'];
 const GENERATED: &[&str] = &["table_0", "table_1", "table_2", "table_3", "_expr_0", "_expr_1", "_expr_2", "_expr_3", "table_00", "_expr_", "table_"];
 const PRQL_WORDS: &[&str] = &["let", "into", "case", "prql", "type", "module", "internal", "func", "import", "enum", "null", "true", "false", "this", "that", "from", "select", "derive", "filter", "take", "sort", "join", "group", "aggregate", "window", "std", "db", "count", "sum", "min", "max", "average", "rank"];
 
@@ -183,7 +183,18 @@ pub fn check_case(t: &Template, name: &str, d: Dialect) -> Option<Bad> {
         (true, true) if t.prql.contains('¶') => return None,
         _ => "\"",
     };
-    let src = t.prql.replace('§', &q_prql(name)).replace('¤', &q_prql(&next)).replace('¶', quote);
+    // inside the quotes of an interpolated string a backslash of the name is written `\\\\` (escapes of the string
+    // are decoded before its `{…}` holes are read)
+    let src = t
+        .prql
+        .split('¶')
+        .enumerate()
+        .map(|(i, seg)| {
+            let dbl = |n: &str| if i % 2 == 1 { n.replace('\\', "\\\\") } else { n.to_string() };
+            seg.replace('§', &dbl(&q_prql(name))).replace('¤', &dbl(&q_prql(&next)))
+        })
+        .collect::<Vec<_>>()
+        .join(quote);
     let sql = match guard(|| prqlc::compile(&src, &opts(d))) {
         Err(p) => return Some(Bad { key: crate::c12::panic_key(&p), why: format!("{src}: panic at {}: {}", p.site, p.msg) }),
         Ok(Err(e)) => return Some(Bad { key: format!("identifier-rejected:{}", t.position), why: format!("{src}: {}", err_text(&e)) }),
